@@ -29,7 +29,9 @@
 (*                               region (`except OSError`): the job file is kept with records missing  *)
 EXTENDS Integers, Sequences, FiniteSets, TLC, Json, TagRecords
 
-CONSTANTS Mutation,     \* "none" | "sort_no_reraise" | "worker_swallows_ioerror"
+(*   "interrupt_swallowed"     : the molecule loop of the single pipeline catches KeyboardInterrupt,     *)
+(*                               stops writing and falls through to close / sort / index / status ok   *)
+CONSTANTS Mutation,     \* "none" | "sort_no_reraise" | "worker_swallows_ioerror" | "interrupt_swallowed"
           NMol,         \* molecules per pipeline / per job: 0..NMol
           NJobs,        \* jobs of the multiprocess pipeline (job 1 is the `*` job)
           Pipelines,    \* subset of {"single", "multi"}
@@ -114,6 +116,9 @@ OpenUnsorted  == /\ Step("open", "loop") /\ unsorted' = [st |-> "open", n |-> 0,
 WriteMolecule == /\ ~crashed /\ pc = "loop" /\ unsorted.n < Total
                  /\ unsorted' = [unsorted EXCEPT !.n = @ + 1]
                  /\ UNCHANGED <<pipeline, prev, size, pc, status, out, bai, w, planned, collected, tries, crashed, crashAt, crashKind, crashJob, tempLeft>>
+LoopInterruptSwallowed ==                         \* only under Mutation = "interrupt_swallowed": not a crash, the run goes on
+                 /\ Mutation = "interrupt_swallowed" /\ Step("loop", "close") /\ unsorted.n < Total
+                 /\ UNCHANGED <<pipeline, prev, size, status, unsorted, out, bai, w, planned, collected, tries, crashed, crashAt, crashKind, crashJob, tempLeft>>
 LoopEnd       == /\ Step("loop", "close") /\ unsorted.n = Total
                  /\ status' = IF StatusOrder = "impl" THEN "ok" ELSE status      \* D17: success reported here
                  /\ UNCHANGED <<pipeline, prev, size, unsorted, out, bai, w, planned, collected, tries, crashed, crashAt, crashKind, crashJob, tempLeft>>
@@ -182,25 +187,29 @@ RemoveTempFails == /\ Step("rmtemp", "statusok") /\ tempLeft' = TRUE     \* rmtr
 ---------------------------------------------------------------------------------------------------
 (* failures: terminal.  kind "exception": a Python exception propagates (inside the molecule loop   *)
 (* of the single pipeline the except arm writes FAIL first); kind "kill": the process disappears.   *)
+Kinds == {"exception", "ioerror", "interrupt", "kill"}
+(* ioerror: an OSError (disk full, truncated read), a Python exception like any other.  interrupt: SIGINT /      *)
+(* KeyboardInterrupt, a BaseException: `except Exception` arms (FAIL status, sort retry) do not see it, and a     *)
+(* pool worker that receives it dies like a killed one.                                                           *)
+Caught(kind) == kind \in {"exception", "ioerror"}
 Crash(kind) ==
     /\ ~crashed /\ pc # "done"
     /\ crashed' = TRUE
     /\ IF crashJob > 0 THEN UNCHANGED <<crashAt, crashKind, crashJob>>     \* the hung parent of a killed worker is killed
        ELSE crashAt' = pc /\ crashKind' = kind /\ crashJob' = 0
-    /\ status' = IF kind # "kill" /\ pipeline = "single" /\ pc = "loop" THEN "fail" ELSE status
+    /\ status' = IF Caught(kind) /\ pipeline = "single" /\ pc = "loop" THEN "fail" ELSE status
     /\ UNCHANGED <<pipeline, prev, size, pc, unsorted, out, bai, w, planned, collected, tries, tempLeft>>
 
 (* a worker raising: the exception is re-raised in the parent by imap_unordered; a worker killed:  *)
 (* multiprocessing.Pool never delivers the result, the parent waits forever until it is killed too *)
 WorkerCrash(j, kind) ==
     /\ ~crashed /\ pc = "pool" /\ j \in planned /\ w[j].pc \notin {"ret", "dead"}
-    /\ IF kind # "kill"
+    /\ IF Caught(kind)
        THEN crashed' = TRUE /\ crashAt' = "worker:" \o w[j].pc /\ crashKind' = kind /\ crashJob' = j /\ Same(w)
        ELSE w' = [w EXCEPT ![j].pc = "dead"] /\ crashAt' = "worker:" \o w[j].pc /\ crashJob' = j /\ crashKind' = kind /\ Same(crashed)
     /\ UNCHANGED <<pipeline, prev, size, pc, status, unsorted, out, bai, planned, collected, tries, tempLeft>>
 
-Kinds == {"exception", "ioerror", "kill"}       \* ioerror: an OSError (disk full, truncated read), a Python exception like any other
-SingleNext == OpenUnsorted \/ WriteMolecule \/ LoopEnd \/ CloseUnsorted \/ AddReadGroups \/ SortBegin \/ SortFail \/ SortGiveUp \/ SortEnd
+SingleNext == OpenUnsorted \/ WriteMolecule \/ LoopInterruptSwallowed \/ LoopEnd \/ CloseUnsorted \/ AddReadGroups \/ SortBegin \/ SortFail \/ SortGiveUp \/ SortEnd
               \/ Index \/ RemoveUnsorted
 WorkerNext == \E j \in Jobs : WOpen(j) \/ WWrite(j) \/ WClose(j) \/ WSwallow(j) \/ WAddRG(j) \/ WSort(j) \/ WIndex(j) \/ WRemoveUnsorted(j) \/ WReturn(j)
 MultiNext  == Plan \/ Collect \/ HeaderBam \/ MergeBegin \/ MergeEnd \/ IndexMerged \/ RemoveParts \/ RemoveTemp \/ RemoveTempFails
